@@ -10,7 +10,7 @@
 (* generating sequence, the name of a file).                               *)
 (*                                                                         *)
 (*  - the automaton under the cursor is (vs, E) of FSA.tla, so every       *)
-(*    mutating action of FSA.tla (Mutate) is reused verbatim as Edit (MutateK);      *)
+(*    mutating action of FSA.tla (MutateK) is reused verbatim as Edit;     *)
 (*    the other automaton is (ovs, oE); Swap exchanges the roles;          *)
 (*  - Second(p) obtains the second automaton: through the SAME route with  *)
 (*    the SAME input as the first one (the caller's dictionary object      *)
